@@ -293,6 +293,11 @@ def _dcopy(ex, path, args, kwargs, node, fn):
 
 @model("<str>.format", "<str>.join")
 def _fmt(ex, path, args, kwargs, node, fn):
+    if fn.name == "format" and all(isinstance(a, (str, int)) and not isinstance(a, bool) for a in args[1:]) and not kwargs:
+        try:
+            return args[0].format(*args[1:])
+        except (IndexError, KeyError, ValueError):
+            pass
     return "<string>"
 
 
@@ -794,3 +799,35 @@ def _concat_n(ex, path, args, kwargs, node, fn):
             r = _prev_concat3(ex, path, [PyList([r, nxt], None, True)], kwargs, node, fn)
         return r
     return _prev_concat3(ex, path, args, kwargs, node, fn)
+
+
+LIB["numpy.pi"] = PI
+DOC["numpy.pi"] = "the real constant pi (only the facts of lemmas/Axioms.lean are available)"
+
+
+@model("numpy.squeeze", doc="squeeze(x): same values (only length-1 axes are dropped)")
+def _squeeze(ex, path, args, kwargs, node, fn):
+    return args[0]
+
+
+@model("collections.OrderedDict", "OrderedDict", "thejoker.samples.OrderedDict")
+def _odict(ex, path, args, kwargs, node, fn):
+    return PyDict() if not args else args[0].copy()
+
+
+@model("numpy.stack", doc="stack([a0, a1, ...], axis=1)[r, c] = a_c[r]")
+def _stack(ex, path, args, kwargs, node, fn):
+    seq = args[0]
+    if kwargs.get("axis") != 1 or not (isinstance(seq, PyList) and seq.tail is None and seq.items):
+        raise Unsupported("np.stack other than a list along axis=1")
+    items = list(seq.items)
+    n = items[0].shape[0]
+
+    def at(r, c, items=items):
+        out = to_z3(items[-1].at(r), "real")
+        for i in range(len(items) - 2, -1, -1):
+            out = z3.If(to_z3(c) == i, to_z3(items[i].at(r), "real"), out)
+        return out
+    a = Arr([n, len(items)], at, "real", "stacked")
+    a.columns = items
+    return a
